@@ -263,7 +263,7 @@ def run(ctx):
     # ---- E2: into the child
     press = [x for x in seqs if x['c']['k'] == 'press']
     seqs = [x for x in seqs if x['c']['k'] != 'press']
-    if len(press) < 8:
+    if len(press) < 9:
         raise vlib.Inconclusive('lattice has %d queue-pressure cases' % len(press))
     eseq = [x for x in seqs if x['c']['k'] in ('eseq', 'holes')]     # both run on established connections
     ierr = [x for x in seqs if x['c']['k'] == 'ierr']
